@@ -987,6 +987,137 @@ fn part_two_point(ctx: &mut Ctx, n: u64) {
     }
 }
 
+/// Two non-zero candidates that sum to the honest (1, k) but sit `m` positions apart in the sorted
+/// candidate list (m = 1..72, 96, 128, ...), with all-zero candidates in between. The malicious
+/// client flips, in its own honest report, the control-bit correction of level `lt` for the
+/// direction that LEAVES alpha's path: the whole sibling subtree becomes non-zero while alpha's own
+/// side stays clean. It then queries, at a deeper level `l`, alpha's prefix, the sibling subtree's
+/// nearest corner `G`, and m-1 clean (zero) candidates between them, and re-solves the level-`l`
+/// payload so that alpha's prefix carries (1 - g, k - h) where (g, h) is G's value. Any verification
+/// randomness that is shared between candidate positions at distance m (a restarted or periodic
+/// stream, a refill bug) lets exactly this report through; independent randomness rejects it.
+fn part_far_two_point(ctx: &mut Ctx, n: u64) {
+    let mut rng = ctx.rng("c04-fartwopoint");
+    let f64m = Fp::f64();
+    let f255m = Fp::new();
+    let mut dists: Vec<usize> = (1..=72).collect();
+    dists.extend([95, 96, 97, 127, 128, 129, 160, 192, 255, 256, 257]);
+    for i in 0..n {
+        let m = dists[(i as usize + ctx.shard * 7) % dists.len()];
+        let bits = *rng.choose(&[12usize, 16, 16, 20, 33]);
+        let span_min = (usize::BITS - (m + 24).leading_zeros()) as usize; // 2^span >= m + 24
+        let l = if rng.chance(1, 3) { bits - 1 } else { span_min + rng.usize_below(bits - span_min) };
+        if l < span_min {
+            continue;
+        }
+        let lt = rng.usize_below(l - span_min + 1); // tampered level; span = l - lt >= span_min
+        let span = l - lt;
+        let mut alpha = random_bits(&mut rng, bits);
+        let sib_right = !alpha[lt];
+        let extra = rng.usize_below(20);
+        let width = 1u64 << span.min(40);
+        // value of alpha's bits lt+1..=l (only the low 40 bits are steered; higher ones are all-0 / all-1)
+        let a: u64 = if sib_right { width - (m as u64) - extra as u64 } else { (m as u64) - 1 + extra as u64 };
+        let set_low = |p: &mut Bits, v: u64| {
+            for j in 0..span {
+                let bit_from_lsb = span - 1 - j;
+                p[lt + 1 + j] = if bit_from_lsb < 40 { (v >> bit_from_lsb) & 1 == 1 } else { sib_right };
+            }
+        };
+        set_low(&mut alpha, a);
+        let vdaf = Poplar1::new_turboshake128(bits);
+        let vctx = gen_vctx(&mut rng);
+        let nonce: [u8; 16] = rng.array();
+        let Some((honest, hc)) = honest_report_with_model(ctx, &mut rng, &vdaf, bits, &alpha, &vctx, &nonce) else { continue };
+        let lay = PublicShareLayout { bits };
+        let leaf = l == bits - 1;
+        let f = if leaf { &f255m } else { &f64m };
+        let k = if leaf { hc.auth_leaf.clone() } else { BigUint::from(hc.auth_inner[l]) };
+        let on = alpha[..=l].to_vec();
+        // G: the sibling subtree's corner nearest to alpha's side
+        let mut g_pref = on.clone();
+        g_pref[lt] = !alpha[lt];
+        for b in g_pref[lt + 1..].iter_mut() {
+            *b = !sib_right;
+        }
+        // m-1 clean candidates strictly between `on` and `G`
+        let mut pool: Vec<u64> = if sib_right { (a + 1..width).collect() } else { (0..a).collect() };
+        rng.shuffle(&mut pool);
+        pool.truncate(m - 1);
+        let mut set: Vec<Bits> = vec![on.clone(), g_pref.clone()];
+        for v in &pool {
+            let mut p = on.clone();
+            set_low(&mut p, *v);
+            set.push(p);
+        }
+        // clean company outside the subtree of the tampered node (lands before or after the pair)
+        if lt > 0 {
+            for _ in 0..rng.usize_below(40) {
+                let p = random_bits(&mut rng, l + 1);
+                if p[..lt] != alpha[..lt] {
+                    set.push(p);
+                }
+            }
+        }
+        let set = normalize(set);
+        let (io, ig) = (set.iter().position(|p| *p == on), set.iter().position(|p| *p == g_pref));
+        let (Some(io), Some(ig)) = (io, ig) else { continue };
+        if io.abs_diff(ig) != m {
+            ctx.count("far_two_point_distance_construction_FAILED");
+            ctx.inconclusive("far two-point: the constructed candidate list does not have the intended index distance (harness bug)");
+            continue;
+        }
+        let mut art = honest.clone();
+        let (cb, cm) = lay.ctrl_bit(lt, if sib_right { 1 } else { 0 });
+        art.ps[cb] ^= cm;
+        // alpha's side must still be clean: (1, k) on the path, zero at a filler
+        let filler_ok = set.iter().filter(|p| **p != on && **p != g_pref).take(2).all(|p| eval_sum(&vdaf, &art, p, f) == Some((f.u(0), f.u(0))));
+        let (Some(g), Some(cur)) = (eval_sum(&vdaf, &art, &g_pref, f), eval_sum(&vdaf, &art, &on, f)) else {
+            ctx.count("far_two_point_build_failed");
+            continue;
+        };
+        if !filler_ok || cur != (f.u(1), k.clone()) {
+            ctx.count("far_two_point_clean_side_not_clean");
+            ctx.inconclusive("far two-point: flipping a control-bit correction for the off-path direction disturbed the on-path side (harness model of the IDPF is off)");
+            continue;
+        }
+        if g.0.is_zero() || g.0 == f.u(1) {
+            ctx.count("far_two_point_build_failed");
+            continue;
+        }
+        let want = (f.sub(&f.u(1), &g.0), f.sub(&k, &g.1));
+        let d = (f.sub(&want.0, &cur.0), f.sub(&want.1, &cur.1));
+        let (ps_, pe) = if leaf { (lay.leaf_start(), lay.leaf_start() + 64) } else { lay.inner_payload_range(l) };
+        let es = f.elem_size();
+        let old = (BigUint::from_bytes_le(&art.ps[ps_..ps_ + es]), BigUint::from_bytes_le(&art.ps[ps_ + es..pe]));
+        let mut built = false;
+        for sign in 0..2 {
+            let nv = if sign == 0 { (f.add(&old.0, &d.0), f.add(&old.1, &d.1)) } else { (f.sub(&old.0, &d.0), f.sub(&old.1, &d.1)) };
+            art.ps[ps_..ps_ + es].copy_from_slice(&f.enc(&nv.0));
+            art.ps[ps_ + es..pe].copy_from_slice(&f.enc(&nv.1));
+            if eval_sum(&vdaf, &art, &on, f).as_ref() == Some(&want) && eval_sum(&vdaf, &art, &g_pref, f).as_ref() == Some(&g) {
+                built = true;
+                break;
+            }
+        }
+        if !built {
+            // G's own control bits made it move with the payload (probability 1/2): not buildable this way
+            ctx.count("far_two_point_build_failed");
+            continue;
+        }
+        ctx.count("far_two_point_reports_built");
+        ctx.count(&format!("far_two_point_distance_{}", if m <= 31 { "1-31" } else if m == 32 { "32" } else if m <= 63 { "33-63" } else if m == 64 { "64" } else if m <= 128 { "65-128" } else { "129+" }));
+        ctx.set_insert("far_two_point_distances", format!("{m:03}"));
+        ctx.max("far_two_point_max_candidates", set.len() as u64);
+        ctx.trace(|| format!("fartwopoint {i}: bits={bits} l={l} lt={lt} m={m}"));
+        honest_control(ctx, &mut rng, &vdaf, &honest, &set);
+        let c = Case { vdaf: &vdaf, art: &art, prefixes: &set, tamper: &Tamper::none(), must_reject: true, strategy: "far-two-point-sum-to-one",
+                       detail: json!({"tampered_ctrl_level": lt, "query_level": l, "index_distance": m, "index_on_path": io, "index_far_point": ig,
+                                      "on_path_value": [want.0.to_string(), want.1.to_string()], "far_value": [g.0.to_string(), g.1.to_string()], "authenticator": k.to_string()}) };
+        judge(ctx, &mut rng, &c);
+    }
+}
+
 // ---------------------------------------------------------------------------------------------
 // Part 3: byte alterations of every region; splicing and swapping
 // ---------------------------------------------------------------------------------------------
@@ -1281,9 +1412,11 @@ pub fn run(ctx: &mut Ctx) {
     let n3 = per_shard(ctx, 144_000, 1_200_000);
     let n4 = per_shard(ctx, 9_600, 48_000);
     let n5 = per_shard(ctx, 24_000, 200_000);
+    let n6 = per_shard(ctx, 6_400, 64_000);
     part_programmed(ctx, n1);
     part_cw(ctx, n2);
     part_two_point(ctx, n5);
+    part_far_two_point(ctx, n6);
     part_bytes(ctx, n3);
     part_variants(ctx, n4);
     // Anti-vacuity (per shard: every shard runs every part).
@@ -1299,6 +1432,9 @@ pub fn run(ctx: &mut Ctx) {
     }
     if c(ctx, "two_point_reports_built") == 0 {
         ctx.inconclusive("no two-point (sum-to-one) report could be built on this shard");
+    }
+    if c(ctx, "far_two_point_reports_built") == 0 {
+        ctx.inconclusive("no far two-point report could be built on this shard");
     }
     if c(ctx, "model_crosschecks") == 0 {
         ctx.inconclusive("re-implementation was never cross-checked against shard_with_random on this shard");
